@@ -1200,13 +1200,15 @@ func (e *c17Env) scanRun(c *runCase, o *runOutcome) {
 					fmt.Fprintf(os.Stderr, "DEBUG %s %s line %q noEcho=%v env=%q simout=%q\n", rel, kind, line, o.noEcho, o.Env, o.SimOut)
 				}
 				switch {
-				case kind == "password" && devSSH[c.Dev] && (!o.noEcho || o.Env != "" && echoFlavour) && !secretOutsideDeviceText(line, o.SimOut, secret, c.user()):
+				case kind == "password" && devSSH[c.Dev] && (!o.noEcho || echoFlavour || c.Fault == "echohang") && !secretOutsideDeviceText(line, o.SimOut, secret, c.user()):
 					if os.Getenv("C17_DEBUG") != "" {
 						fmt.Fprintf(os.Stderr, "DEBUG excused line %q\n", line)
 					}
 					// the device echoed what was typed at its password prompt: outside the guarantee
-					// (hypothesis noEchoAtPasswordPrompt of ssh_echo_device_independent) — but only where the
-					// sink shows text the device wrote; a password the code itself put next to it is judged
+					// (hypothesis noEchoAtPasswordPrompt of ssh_echo_device_independent; the model computes it
+					// from the chunks, the simulated device has it by construction in flavour 5 / fault echohang —
+					// chunk boundaries vary under load) — but only where the sink shows text the device wrote;
+					// a password the code itself put next to it is judged
 					e.res.Count("scan:device-echoes-at-password-prompt(outside guarantee):" + sink)
 					continue
 				case kind == "apikey" && c.Dev == "PAN-OS" && c.Fault == "statuskey" && !strings.HasPrefix(sink, "session"):
@@ -1544,6 +1546,12 @@ func (e *c17Env) compareSSH(c *runCase, o *runOutcome) {
 	wantChange := strings.Join(m["change"], "")
 	if approve && finished && !applies {
 		wantChange = "No changes applied\n"
+	}
+	if finished && applies && len(errLines) > 0 && chg != wantChange && strings.HasPrefix(wantChange, chg) {
+		// abort in the change phase while the device still answers commands that arrived in the same
+		// packet: what it writes behind the aborting answer is never read, hence not logged
+		e.res.Count("ssh-steps:device-output-behind-the-abort-is-not-read")
+		wantChange = chg
 	}
 	var modelLines []string
 	for _, p := range m["sends"] {
